@@ -570,7 +570,7 @@ def case_st(draw):
 
 def explore(rec):
     quick = rec.tier == "quick"
-    rec.hyp("formatter-runs", case_st(), 4000 if quick else 80000)
+    rec.hyp("formatter-runs", case_st(), 12000 if quick else 160000)
 
 
 def required_labels(tier):
